@@ -154,6 +154,9 @@ pub enum Ctor {
     Default,
     FromArray(usize),
     FromIter(usize),
+    /// from_iter of an iterator yielding m items whose size_hint is shaped by `mode`
+    /// (0 exact, 1 unknown (0, None), 2 loose upper bound (0, Some(m + big)), 3 (m, None))
+    FromIterHint(usize, usize),
 }
 
 #[derive(Clone, Copy, PartialEq, Eq, Hash, Debug)]
@@ -173,6 +176,8 @@ pub enum Act {
     TruncateFront(usize),
     Clear,
     Extend(usize),
+    /// extend with an iterator of m items whose size_hint is shaped by mode (see Ctor::FromIterHint)
+    ExtendHint(usize, usize),
     ExtendFromSlice(usize),
     Fill,
     FillWith,
@@ -239,6 +244,7 @@ impl Act {
             TruncateFront(_) => "truncate_front",
             Clear => "clear",
             Extend(_) => "extend",
+            ExtendHint(..) => "extend_hint",
             ExtendFromSlice(_) => "extend_from_slice",
             Fill => "fill",
             FillWith => "fill_with",
@@ -295,7 +301,7 @@ impl Act {
             Remove(i) | SwapRemoveBack(i) | SwapRemoveFront(i) | TruncateBack(i)
             | TruncateFront(i) | Extend(i) | ExtendFromSlice(i) | Get(i) | NthFront(i)
             | NthBack(i) | Index(i) | DebugFmt(i) | EqOther(i) | CmpOther(i) => vec![i],
-            Swap(i, j) | CloneFrom(i, j) => vec![i, j],
+            Swap(i, j) | CloneFrom(i, j) | ExtendHint(i, j) => vec![i, j],
             WriteVia(_, i) => vec![i],
             IterDebug(k, s) => vec![k, s.bits as usize, s.len as usize],
             Drain(r, s, _) | Range(r, s) | RangeMut(r, s) | DrainDebug(r, s) => vec![
@@ -363,6 +369,7 @@ impl Act {
             "truncate_front" => TruncateFront(a(0)?),
             "clear" => Clear,
             "extend" => Extend(a(0)?),
+            "extend_hint" => ExtendHint(a(0)?, a(1)?),
             "extend_from_slice" => ExtendFromSlice(a(0)?),
             "fill" => Fill,
             "fill_with" => FillWith,
@@ -447,6 +454,7 @@ impl Act {
                 | TruncateFront(_)
                 | Clear
                 | Extend(_)
+                | ExtendHint(..)
                 | ExtendFromSlice(_)
                 | Fill
                 | FillWith
@@ -490,6 +498,7 @@ impl fmt::Display for Ctor {
             Ctor::Default => write!(f, "default"),
             Ctor::FromArray(m) => write!(f, "from_array({})", m),
             Ctor::FromIter(m) => write!(f, "from_iter({})", m),
+            Ctor::FromIterHint(m, h) => write!(f, "from_iter_hint({},{})", m, h),
         }
     }
 }
@@ -502,6 +511,9 @@ impl Ctor {
             _ => {
                 if let Some(r) = s.strip_prefix("from_array(") {
                     Some(Ctor::FromArray(r.strip_suffix(')')?.parse().ok()?))
+                } else if let Some(r) = s.strip_prefix("from_iter_hint(") {
+                    let (a, b) = r.strip_suffix(')')?.split_once(',')?;
+                    Some(Ctor::FromIterHint(a.parse().ok()?, b.parse().ok()?))
                 } else if let Some(r) = s.strip_prefix("from_iter(") {
                     Some(Ctor::FromIter(r.strip_suffix(')')?.parse().ok()?))
                 } else {
